@@ -80,7 +80,10 @@ def configs(draw, reps):
         "init": draw(st.sampled_from(["standard", "full", "grow", "pigrow", "ramped", "inject", "inject"])),
         "inject_n": draw(st.integers(1, 6)),
         "random_omitted": draw(st.sampled_from([False, False, True])),
-        "gp_step": draw(st.sampled_from(["default", "crossover-heavy"])),
+        "gp_step": draw(st.sampled_from(["default", "crossover-heavy", "elitism-heavy", "elitism-heavy"])),
+        # few fitness levels: many different programs tie at the elite cut
+        "fitness_levels": draw(st.sampled_from([7, 7, 3, 2])),
+        "budget_factor": draw(st.sampled_from([1, 2, 4])),
         "envs": [
             {"hashseed": draw(st.sampled_from([0, 1, 4242, "random"])), "dummies": draw(st.sampled_from([0, 1, 7, 50, 333])), "imports": draw(st.permutations(MODULES))[: draw(st.integers(0, len(MODULES)))], "define_order": draw(st.sampled_from([0, 1, 2, 3]))}
             for _ in range(3)
